@@ -15,7 +15,7 @@ def run(report, tier):
     report.assumptions += [
         "Lark implements its documented semantics (witnesses replayed on the real parser / scanner)",
         "particle and parameter names do not start with a numeric literal (no particle name does): such words are outside the name lemma",
-        "Output \"...\" lines: grammar level only (ESCAPED_STRING uses a look-behind the symbolic matcher does not support)",
+        "Output \"...\" lines: the string lemma covers quoted names without quote / backslash / line end inside (escapes are outside)",
         "particle names the reader resolves AmpGen-style spellings to (K*(892)bar0 -> K*(892)~0, ...) are pinned in the harness as today's values",
         "particle_from_string_name is memoised per process in the read harness (about 1 s per call otherwise); pandas/numpy/particle run untraced",
         "a fix column is written as an integer, as AmpGen does",
